@@ -1498,6 +1498,11 @@ M('C03', 'ag-select-helper-or', PGP, '        pkesk = next(pk for pk in message.
 T('C03', 'twin-decrypt-wiring-keywords', PGP, "        decmsg.parse(message.message.decrypt(key, alg))\n\n        return decmsg\n\n    def parse(self, data):", "        recovered = (alg, key)\n        decmsg.parse(message.message.decrypt(alg=recovered[0], key=recovered[1]))\n\n        return decmsg\n\n    def parse(self, data):")
 M('C03', 'decrypt-wiring-cipher-from-own-prefs', PGP, "        decmsg.parse(message.message.decrypt(key, alg))\n\n        return decmsg\n\n    def parse(self, data):", "        decmsg.parse(message.message.decrypt(key, SymmetricKeyAlgorithm.AES256))\n\n        return decmsg\n\n    def parse(self, data):", 'C03.7')
 
+T('C03', 'twin-m-value-int-to-bytes-method', PK, "        m = bytearray(self.int_to_bytes(symalg) + symkey)\n        m += self.int_to_bytes(sum(bytearray(symkey)) % 65536, 2)",
+  "        m = bytearray(symalg.to_bytes(1, 'big') + symkey\n                      + (sum(bytearray(symkey)) % 65536).to_bytes(length=2, byteorder='big'))")
+M('C03', 'm-value-checksum-little-endian', PK, "        m = bytearray(self.int_to_bytes(symalg) + symkey)\n        m += self.int_to_bytes(sum(bytearray(symkey)) % 65536, 2)",
+  "        m = bytearray(symalg.to_bytes(1, 'big') + symkey\n                      + (sum(bytearray(symkey)) % 65536).to_bytes(2, 'little'))", 'C03.1')
+
 # =============================================================================================== C02
 M('C02', 'hash2-last-two', PGP, "        sig._signature.hash2 = bytearray(h2.digest()[:2])", "        sig._signature.hash2 = bytearray(h2.digest()[-2:])", 'C02.2')
 M('C02', 'signer-hashdata-none', PGP, "        _sig = self._key.sign(sigdata, getattr(hashes, sig.hash_algorithm.name)())", "        _sig = self._key.sign(sig.hashdata(None), getattr(hashes, sig.hash_algorithm.name)())", 'C02.2')
